@@ -142,7 +142,7 @@ impl<'a> Gen<'a> {
             let k = 1 + self.r.below(5000) as u128;
             for a in pi.assets.iter() {
                 let base = a.amount.u128() / 10_000 * k / 10;
-                let amt = match self.r.below(8) { 0 => base + base / 50, 1 => base / 2, 2 => rand_mag(self.r, 20), _ => base };
+                let amt = match self.r.below(9) { 0 => base + base / 50, 1 => base / 2, 2 => rand_mag(self.r, 20), 3 => 1 + self.r.below(3) as u128, _ => base };
                 if amt > 0 { funds.push(coin(amt, a.denom.clone())); }
             }
             if n > 2 && self.r.chance(1, 4) { funds.pop(); }
